@@ -286,6 +286,8 @@ func runC05(c *core.Ctx) {
 	nestedReports(c, pool, c.N(200, 2500), nestedAnyShape)
 	// and requests served one after the other by one application value
 	reusedApp(c, pool, c.N(150, 2000), nestedAnyShape)
+	// and reports produced side by side in goroutines of one process, under the race detector
+	parallelReports(c, c.N(60, 800), nestedAnyShape)
 	jobs, deaths := pool.Stats()
 	c.Count("l2_jobs", jobs)
 	c.Count("l2_process_deaths", deaths)
